@@ -85,7 +85,7 @@ Section Relative.
   Proof.
     intros pc f c bd G g H Hres. unfold c04_call_ok, c04_args_ok in H.
     destruct (twin_binding f c) as [b|] eqn:Eb; [|discriminate].
-    apply andb_true_iff in H as [H Hret]. apply andb_true_iff in H as [H Hann]. apply andb_true_iff in H as [_ Hgood].
+    apply andb_true_iff in H as [H Hret]. apply andb_true_iff in H as [H Hann]. apply andb_true_iff in H as [H _]. apply andb_true_iff in H as [_ Hgood].
     destruct (f_ret f) as [r|] eqn:Er; [|discriminate].
     eapply transparent; try eassumption.
     - apply consumes_model_iter.
@@ -209,12 +209,14 @@ Proof.
 Qed.
 Print Assumptions C04_classmethod_direct_refuted.
 
-(* a method with *args: the receiver itself is checked against the annotation of *args: k.m() raises *)
+(* a static (or class) method with *args of a @pedantic_class called through an instance: the instance the wrapper receives
+   is not counted by the first pass and is checked against the annotation of *args: k.s() raises
+   (for instance methods this was repaired by /repo 9c0ddc8: Example C04_method_with_varargs_transparent) *)
 Theorem C04_receiver_under_varargs_refuted : exists f c bd,
   c04_call_ok ctx0 f c = true /\ c04_result_ok ctx0 f (bd [] []) = true
   /\ run1 ctx0 f c bd = (Raise PTypeCheckC, []) /\ fst (twin f c bd) = Ok one.
 Proof.
-  exists m_varargs, (kwcall [k_inst] []), (returns one). repeat split; reflexivity.
+  exists s_varargs, {| c_recv := [k_inst]; c_twin_recv := []; c_args := []; c_kwargs := [] |}, (returns one). repeat split; reflexivity.
 Qed.
 Print Assumptions C04_receiver_under_varargs_refuted.
 
@@ -258,14 +260,31 @@ Proof.
 Qed.
 Print Assumptions C04_exhausted_generator_refuted.
 
-(* observation outside the domain of C04 (the call passes a declared parameter positionally, which functions with
-   *args allow): def f(a: int, *args: str); f(1, 'x') raises PedanticTypeCheckException, because _check_types_args
-   checks every element of self.args - the leading 1 included - against the annotation of *args *)
-Example C04_observation_leading_positional_checked_as_star :
+(* repaired by /repo 9c0ddc8 (only the values collected by *args are checked against its annotation): a method with *args
+   called on an instance, and a positional value for the parameter declared before *args *)
+Example C04_method_with_varargs_transparent :
+  c04_call_ok ctx0 m_varargs (kwcall [k_inst] []) = true
+  /\ run1 ctx0 m_varargs (kwcall [k_inst] []) (returns one) = twin m_varargs (kwcall [k_inst] []) (returns one)
+  /\ run1 ctx0 m_varargs (poscall [k_inst] [one; one] []) (returns one) = twin m_varargs (poscall [k_inst] [one; one] []) (returns one).
+Proof. repeat split; reflexivity. Qed.
+
+Example C04_leading_positional_transparent :
   let f := func "f" [par a_ PosOrKw AInt None; par args_ VarPos AStrC None] (tflags true false false true 1) in
   let c := poscall [] [one; vx] [] in
-  c04_call_ok ctx0 f c = false /\ run1 ctx0 f c (returns one) = (Raise PTypeCheckC, []) /\ fst (twin f c (returns one)) = Ok one.
-Proof. repeat split; reflexivity. Qed.
+  c04_call_ok ctx0 f c = true /\ run1 ctx0 f c (returns one) = twin f c (returns one).
+Proof. split; reflexivity. Qed.
+
+(* ... but a DEFAULTED parameter before *args that is passed positionally is still checked as a *args element (and its
+   default is checked in its place): def f(a: int = 0, *args: str); f(1, 'x') raises *)
+Theorem C04_defaulted_leading_positional_refuted : exists f c bd,
+  c04_call_ok ctx0 f c = true /\ c04_result_ok ctx0 f (bd [] []) = true
+  /\ run1 ctx0 f c bd = (Raise PTypeCheckC, []) /\ fst (twin f c bd) = Ok one.
+Proof.
+  exists (func "f" [par a_ PosOrKw AInt (Some (VInt 0%Z)); par args_ VarPos AStrC None] (tflags true false false true 1)),
+         (poscall [] [one; vx] []), (returns one).
+  repeat split; reflexivity.
+Qed.
+Print Assumptions C04_defaulted_leading_positional_refuted.
 
 (* ... while positional values that all land in *args are in the domain and pass *)
 Example C04_star_elements_transparent :
